@@ -164,6 +164,9 @@ def g_line(msg):
     tab = PTAB[p if p in PTAB else 'value']
     q = {} if msg['t'] == NOT else {'t': T0 + msg['t']}
     shape = msg['shape']
+    if shape == 'okq':     # well formed, with qualifiers the client does not know
+        q = dict(q, e=0.25, x_extra=['any', {'thing': None}])
+        shape = 'ok'
     if msg['action'] in ('update', 'reply', 'changed'):
         v = tab[2][msg['w']]
         data = {'ok': [v, q], 'short': [v], 'scalar': 5, 'badq': [v, 3], 'badt': [v, {'t': 'yesterday'}],
@@ -264,6 +267,7 @@ class MsgWorld:
         self.pending = None  # step whose effects are being collected
         self.ident_of = {}
         self.peeked = []
+        self.handled_errors = 0
         self.skipped = []
         self.describe(desc)
 
@@ -277,7 +281,11 @@ class MsgWorld:
         world = self
         beh = cb['beh']
 
-        if cb['kind'] == 'updateEvent':
+        if cb['kind'] == 'handleError':
+            def fn(exc):
+                world.handled_errors += 1
+                world.react(beh)
+        elif cb['kind'] == 'updateEvent':
             def fn(module, parameter, value, timestamp, readerror):
                 world.calls.append({'cb': cb, 'm': module, 'p': parameter, 'e': a_entry(parameter, value, timestamp, readerror)})
                 world.react(beh)
@@ -312,10 +320,12 @@ class MsgWorld:
 
     def a_cbs(self):
         res = []
-        for kind in ('updateEvent', 'updateItem'):
+        for kind in ('updateEvent', 'updateItem', 'handleError'):
             for key, lst in self.client.callbacks[kind].items():
                 for fn in lst:
                     cb = getattr(fn, 'cb', None)
+                    if kind == 'handleError' and getattr(fn, '__self__', None) is self.client:
+                        continue    # the client's own handler
                     lv = ['', ''] if key is None else ([key, ''] if isinstance(key, str) else list(key))
                     if cb is None:
                         res.append([lv, kind, '?foreign'])
@@ -351,6 +361,9 @@ class MsgWorld:
             if act == 'recv':
                 self.pending = st
                 return g_line(st['msg'])
+            if act == 'idle':       # nothing on the line within the time-out of the connection
+                self.pending = st
+                return None
             if act == 'register':
                 self.do_registers(self.group(st))
                 continue
@@ -400,7 +413,11 @@ class MsgWorld:
         kwds = {}
         for st in grp:    # keyword order = order of the steps
             kwds[st['cb']['kind']] = self.make_cb(st['cb'])
-        self.client.register_callback(self.level_key(grp[0]['cb']['level']), **kwds)
+        key = self.level_key(grp[0]['cb']['level'])
+        if isinstance(key, str):      # both calling conventions: callback name from the keyword / from __name__
+            self.client.register_callback(key, *kwds.values())
+        else:
+            self.client.register_callback(key, **kwds)
         o = self.observe()
         mine = [cbkey(st['cb']) for st in grp]
         for i, st in enumerate(grp):
@@ -413,7 +430,11 @@ class MsgWorld:
         c = self.client
         if act == 'unregister':
             fn = self.funcs[cbkey(st['cb'])]
-            c.unregister_callback(self.level_key(st['cb']['level']), **{st['cb']['kind']: fn})
+            key = self.level_key(st['cb']['level'])
+            if isinstance(key, str):
+                c.unregister_callback(key, fn)
+            else:
+                c.unregister_callback(key, **{st['cb']['kind']: fn})
         elif act == 'expect':
             ra, ident = st['rk']
             wi = g_ident(ident)
@@ -546,9 +567,9 @@ def _random_trace(seed_n):
                 m, p = rnd.choice(R_MODS + ['zz']), rnd.choice(R_PNAMES + ['zz', 'cmd', ''])
             iserr = rnd.random() < 0.3
             action = rnd.choice(['error_update', 'error_read']) if iserr else rnd.choice(['update', 'update', 'reply', 'changed'])
-            shape = 'ok' if rnd.random() < 0.85 else rnd.choice(R_SHAPES)
+            shape = rnd.choice(['ok', 'ok', 'okq']) if rnd.random() < 0.85 else rnd.choice(R_SHAPES)
             msg = {'action': action, 'ident': [m, p], 'shape': shape, 'w': 'w1', 't': NOT, 'en': 'HardwareError', 'tx': 't1'}
-            if shape == 'ok':
+            if shape in ('ok', 'okq'):
                 msg['t'] = rnd.choice([NOT, rnd.randint(0, 30), max(0, now - rnd.randint(0, 3)), now])
                 if iserr:
                     msg['en'] = rnd.choice(R_ENAMES)
@@ -560,6 +581,9 @@ def _random_trace(seed_n):
             lv = rnd.choice([['', ''], [rnd.choice(R_MODS), ''], list(rnd.choice(desc)) if desc else ['m1', 'value'],
                              [rnd.choice(R_MODS), rnd.choice(R_PNAMES)]])
             cb = {'level': lv, 'kind': rnd.choice(['updateEvent', 'updateItem']), 'beh': rnd.choice(['ok', 'ok', 'raise', 'oneshot'])}
+            if rnd.random() < 0.12:   # a user's own error handler, well behaved or not
+                cb = {'level': ['', ''], 'kind': 'handleError', 'beh': rnd.choice(['ok', 'raise'])}
+                lv = cb['level']
             if cbkey(cb) not in {cbkey(c) for c in regs}:
                 regs.append(cb)
                 steps.append({'ev': 'register', 'cb': cb, 'single': rnd.random() < 0.5})
@@ -579,9 +603,12 @@ def _random_trace(seed_n):
                 p = ''
             rk = [rnd.choice(['reply', 'changed']), [m, p]]
             steps.append({'ev': 'expect', 'rk': rk, 'maybe': True})
-        elif r < 0.96:
+        elif r < 0.94:
             now = min(20, now + rnd.randint(1, 4))
             steps.append({'ev': 'tick', 'now': now})
+        elif r < 0.97:
+            for _ in range(rnd.choice([1, 1, 2, 6])):    # 5 silent periods in a row make the client send a ping
+                steps.append({'ev': 'idle'})
         else:
             desc = _rand_desc(rnd)
             steps.append({'ev': 'descr', 'desc': [list(k) for k in desc]})
